@@ -120,6 +120,15 @@ func c16Cases(tier string, seed uint64, flavor string) []lib.Case {
 			}
 		}
 	}
+	// cancellation while more wounds are outstanding than the wound channel holds, for every consumer kind
+	for _, bd := range [][2]string{{"dirs2500", "all"}, {"files1300", "all"}} {
+		for _, cons := range []string{"printer", "wounds-good", "failfast", "heal-good"} {
+			for _, pt := range []string{"before", "point:val-dir:1", "point:val-dirs-symlinks-done:1", "point:val-main-select:1", "point:val-main-select:700", "progress:1"} {
+				add(c16Spec{Build: bd[0], Damage: bd[1], Consumer: cons, Cancel: pt, Sched: []string{"none", "perturb"}[i%2], SchedSeed: lib.Mix(seed, uint64(i)), Procs: []int{1, 16}[(i/2)%2]})
+				i++
+			}
+		}
+	}
 	cancelCases("files3", []string{"none", "first", "last", "all"}, 3, 1)
 	ev := 15
 	if tier == "thorough" {
